@@ -68,7 +68,8 @@ BOUNDS = {
     "thorough": "same shapes plus (1,4) and (3,1,4) with three members each; 9 members per shape (more value seeds, rank 3 + noise, exact rank 3, empty last slice); "
                 "holders additionally tensor from a C buffer, sptensor stored in reverse, ttensor with sparse core, "
                 "three-part sumtensor (these four layouts with float64 storage only); storage dtypes int64 and narrowest exact on "
-                "the quick-tier holders, every other exact dtype of int32/int16/int8/uint8 on tensor and sptensor; K = 6 horizons; given guess x ALL N! dimorders x ALL non-empty optdims subsets "
+                "the quick-tier holders, every other exact dtype of int32/int16/int8/uint8 on tensor and sptensor (integer storage "
+                "for the five quick-tier members of each shape); K = 6 horizons; given guess x ALL N! dimorders x ALL non-empty optdims subsets "
                 "(order 4: all 24 dimorders with all modes optimised + 3 dimorders x all 15 subsets), a second given "
                 "guess with non-unit weights, warm restarts j in {1,2,3} on 5 (dimorder, optdims) keys, random seeds "
                 "{0,1,2} and nvecs x 3 dimorders x {all, drop-first}; the "
@@ -529,7 +530,12 @@ def gen_cases(tier, seed):
             if fams is not None and not (d["fam"] in fams or (d["fam"] == "lowrank" and d["rank"] == 1)) \
                     or (fams is not None and d.get("vseed", seed) != seed):
                 continue
+            # the storage dtype dimension is crossed with the quick-tier members (the further members of the thorough
+            # tier vary values and rank, which the storage does not see)
+            core = d in members(shape, "quick", seed)
             for name in holder_names(d, tier):
+                if "@" in name and not core:
+                    continue
                 for R in (1, 2, 3):
                     yield {"check": "als", "data": d, "holder": name, "rank": R, "tier": tier, "seed": seed}
 
